@@ -12,12 +12,96 @@ import Rl.Lemmas.RenderLogLift
 namespace Rl
 open EM
 
-def BdI (s : Ed) : Prop := WF s.line ∧ LogBd s.render
+/-- the cursors of the line and of the saved line (`backup` / `restore` of history recall) are on character
+    boundaries, and so is every cursor logged so far -/
+def BdI (s : Ed) : Prop := WF s.line ∧ WF s.saved ∧ LogBd s.render
 
-theorem BdI.of_sk {s s' : Ed} (h : BdI s) (hk : s'.sk = s.sk) : BdI s' := by
-  simp only [Ed.sk, Prod.mk.injEq] at hk
+/-- the key of `BdI` -/
+def Ed.bk (s : Ed) : (List RenderOp × Pos × Text × Nat × Option Text) × LB := (s.sk, s.saved)
+
+theorem BdI.of_bk {s s' : Ed} (h : BdI s) (hk : s'.bk = s.bk) : BdI s' := by
+  simp only [Ed.bk, Ed.sk, Prod.mk.injEq] at hk
   unfold BdI WF at *
-  rw [hk.1, hk.2.2.1, hk.2.2.2.1]; exact h
+  rw [hk.1.1, hk.1.2.2.1, hk.1.2.2.2.1, hk.2]; exact h
+
+/-! ### frame facts for the key `Ed.bk` (as for `Ed.sk` in `RenderLogLift.lean`) -/
+
+section
+variable {α : Type}
+
+theorem bk_rdErr (e : RdErr) : Keeps Ed.bk (rdErr e : EM α) := by
+  constructor; intro s; cases e <;> rfl
+
+theorem bk_nextKey (sea : Bool) : Keeps Ed.bk (nextKey sea) := by
+  constructor; intro s; unfold nextKey
+  cases h : s.input.nextKey sea with
+  | error e => exact (bk_rdErr e).h s
+  | ok r => rfl
+
+theorem bk_nextChar : Keeps Ed.bk nextChar := by
+  constructor; intro s; unfold nextChar
+  cases h : s.input.nextChar with
+  | error e => exact (bk_rdErr e).h s
+  | ok r => rfl
+
+theorem bk_waitForInput (sea : Bool) : Keeps Ed.bk (waitForInput sea) := bk_nextKey sea
+
+theorem bk_readPasted : Keeps Ed.bk readPasted := by
+  constructor; intro s; unfold readPasted
+  cases h : s.input.readPasted (s.input.size + 1) [] with
+  | error e => exact (bk_rdErr e).h s
+  | ok r => rfl
+
+theorem bk_termBinding (k : KeyEvent) : Keeps Ed.bk (termBinding k) := by
+  constructor; intro s; unfold termBinding
+  simp only []
+  by_cases h : ((if k == ⟨.char 'D', 8⟩ then some Cmd.endOfFile
+    else if k == ⟨.char 'C', 8⟩ then some .interrupt
+    else if k == ⟨.char '\\', 8⟩ then some .interrupt
+    else if k == ⟨.char 'Z', 8⟩ then some .suspend
+    else none) == some Cmd.endOfFile && !s.line.buf.isEmpty) = true
+  · rw [if_pos h]
+  · rw [if_neg h]
+
+theorem bk_lastInsert : Keeps Ed.bk lastInsert := ⟨fun _ => rfl⟩
+theorem bk_lineEmpty : Keeps Ed.bk lineEmpty := ⟨fun _ => rfl⟩
+theorem bk_hasHint : Keeps Ed.bk hasHint := ⟨fun _ => rfl⟩
+theorem bk_cursorAtEnd : Keeps Ed.bk cursorAtEnd := ⟨fun _ => rfl⟩
+theorem bk_lastCharSearch : Keeps Ed.bk lastCharSearch := ⟨fun _ => rfl⟩
+theorem bk_getLastCmd : Keeps Ed.bk getLastCmd := ⟨fun _ => rfl⟩
+theorem bk_takeNumArgs : Keeps Ed.bk takeNumArgs := ⟨fun _ => rfl⟩
+theorem bk_setInputMode (m : InputMode) : Keeps Ed.bk (setInputMode m) := ⟨fun _ => rfl⟩
+theorem bk_setLastCmd (c : Cmd) : Keeps Ed.bk (setLastCmd c) := ⟨fun _ => rfl⟩
+theorem bk_getLine : Keeps Ed.bk getLine := ⟨fun _ => rfl⟩
+theorem bk_getHistIdx : Keeps Ed.bk getHistIdx := ⟨fun _ => rfl⟩
+theorem bk_setHistIdx (i : Nat) : Keeps Ed.bk (setHistIdx i) := ⟨fun _ => rfl⟩
+theorem bk_getPromptCol : Keeps Ed.bk getPromptCol := ⟨fun _ => rfl⟩
+theorem bk_changesBegin : Keeps Ed.bk changesBegin := ⟨fun _ => rfl⟩
+theorem bk_changesEnd : Keeps Ed.bk changesEnd := ⟨fun _ => rfl⟩
+theorem bk_doingInsert : Keeps Ed.bk doingInsert := Keeps.bind bk_changesBegin fun _ => Keeps.pure _
+theorem bk_doneInserting : Keeps Ed.bk doneInserting := Keeps.bind bk_changesEnd fun _ => Keeps.pure _
+theorem bk_redoCmd (c : Cmd) (new : Option Nat) : Keeps Ed.bk (redoCmd c new) :=
+  Keeps.bind bk_lastInsert fun _ => Keeps.liftP _
+theorem bk_truncateChanges (m : Nat) : Keeps Ed.bk (truncateChanges m) := ⟨fun _ => rfl⟩
+theorem bk_ringYankCount (n : Nat) : Keeps Ed.bk (ringYankCount n) := ⟨fun _ => rfl⟩
+
+theorem bk_ringYank : Keeps Ed.bk ringYank := by
+  constructor; intro s; unfold ringYank
+  cases h : s.ring.yank with
+  | error e => rfl
+  | ok r => rfl
+theorem bk_ringYankPop : Keeps Ed.bk ringYankPop := by
+  constructor; intro s; unfold ringYankPop
+  cases h : s.ring.yankPop with
+  | error e => rfl
+  | ok r => rfl
+theorem bk_ringKill (t : Text) : Keeps Ed.bk (ringKill t) := by
+  constructor; intro s; unfold ringKill
+  cases h : s.ring.kill t .append with
+  | error e => rfl
+  | ok r => rfl
+
+end
 
 theorem logBd_cons {op : RenderOp} {log : List RenderOp} (h1 : OpBd op) (h2 : LogBd log) : LogBd (op :: log) := by
   intro o ho
@@ -48,14 +132,53 @@ theorem ite {c : Prop} [Decidable c] {a b : EM α} (ha : PresB a) (hb : PresB b)
     PresB (if c then a else b) := by
   split <;> assumption
 
-theorem of_keeps {m : EM α} (hk : Keeps Ed.sk m) : PresB m := by
+theorem of_keeps {m : EM α} (hk : Keeps Ed.bk m) : PresB m := by
   constructor
   intro s h
-  exact wp_mono (hk.wp s) (fun _ s' e => h.of_sk e) (fun _ s' e => h.of_sk e)
+  exact wp_mono (hk.wp s) (fun _ s' e => h.of_bk e) (fun _ s' e => h.of_bk e)
 
 theorem exit (o : Outcome) : PresB (EM.exit o : EM α) := ⟨fun _ h => h⟩
 
 end PresB
+
+/-! ### display-only steps and the log -/
+
+section
+variable {S : Segmenter} {U : UData} {cfg : EdCfg}
+
+theorem PresB.modify {f : Ed → Ed}
+    (h : ∀ s, (f s).render = s.render ∧ (f s).line = s.line ∧ (f s).saved = s.saved) : PresB (EM.modify f) := by
+  constructor
+  intro s hb
+  show BdI (f s)
+  obtain ⟨h1, h2, h3⟩ := h s
+  unfold BdI at *
+  rw [h1, h2, h3]; exact hb
+
+theorem bdp_updateHint : PresB (updateHint cfg) := by
+  constructor
+  intro s h
+  rcases updateHint_cases (cfg := cfg) s with ⟨h1, n1, e1⟩ | ⟨n1, e1⟩
+  · exact wp_of_eq_ok e1 h
+  · unfold wp; rw [e1]; exact h
+
+theorem bdp_highlightCharStep : PresB (highlightCharStep cfg) := by
+  constructor
+  intro s h
+  obtain ⟨b, hc', e2⟩ := highlightCharStep_cases (cfg := cfg) s
+  exact wp_of_eq_ok e2 h
+
+theorem bdp_setRefreshLayout (p : Text) (d : Bool) : PresB (setRefreshLayout S U cfg p d) :=
+  PresB.modify fun _ => ⟨rfl, rfl, rfl⟩
+
+/-- a logged operation that carries the current line (or no line) -/
+theorem bdp_logRender (f : Ed → RenderOp) (hf : ∀ s, WF s.line → OpBd (f s)) : PresB (logRender f) := by
+  constructor
+  intro s h
+  show BdI { s with render := f s :: s.render }
+  exact ⟨h.1, h.2.1, logBd_cons (hf s h.1) h.2.2⟩
+
+end
 
 macro "bd_pres_step" : tactic => `(tactic| first
   | intro _
@@ -69,35 +192,40 @@ macro "bd_pres_step" : tactic => `(tactic| first
     | exact PresB.of_keeps (Keeps.liftP _)
     | exact PresB.of_keeps Keeps.get
     | exact PresB.of_keeps (Keeps.read _)
-    | exact PresB.of_keeps (sk_nextKey _)
-    | exact PresB.of_keeps sk_nextChar
-    | exact PresB.of_keeps (sk_waitForInput _)
-    | exact PresB.of_keeps sk_readPasted
-    | exact PresB.of_keeps (sk_termBinding _)
-    | exact PresB.of_keeps sk_lastInsert
-    | exact PresB.of_keeps sk_lineEmpty
-    | exact PresB.of_keeps sk_hasHint
-    | exact PresB.of_keeps sk_cursorAtEnd
-    | exact PresB.of_keeps sk_lastCharSearch
-    | exact PresB.of_keeps sk_getLastCmd
-    | exact PresB.of_keeps sk_takeNumArgs
-    | exact PresB.of_keeps (sk_setInputMode _)
-    | exact PresB.of_keeps (sk_setLastCmd _)
-    | exact PresB.of_keeps sk_getLine
-    | exact PresB.of_keeps sk_getHistIdx
-    | exact PresB.of_keeps (sk_setHistIdx _)
-    | exact PresB.of_keeps sk_getPromptCol
-    | exact PresB.of_keeps (sk_redoCmd _ _)
-    | exact PresB.of_keeps sk_changesBegin
-    | exact PresB.of_keeps sk_changesEnd
-    | exact PresB.of_keeps sk_doingInsert
-    | exact PresB.of_keeps sk_doneInserting
-    | exact PresB.of_keeps (sk_truncateChanges _)
-    | exact PresB.of_keeps (sk_ringYankCount _)
-    | exact PresB.of_keeps sk_ringYank
-    | exact PresB.of_keeps sk_ringYankPop
-    | exact PresB.of_keeps (sk_ringKill _))
+    | exact PresB.of_keeps (bk_nextKey _)
+    | exact PresB.of_keeps bk_nextChar
+    | exact PresB.of_keeps (bk_waitForInput _)
+    | exact PresB.of_keeps bk_readPasted
+    | exact PresB.of_keeps (bk_termBinding _)
+    | exact PresB.of_keeps bk_lastInsert
+    | exact PresB.of_keeps bk_lineEmpty
+    | exact PresB.of_keeps bk_hasHint
+    | exact PresB.of_keeps bk_cursorAtEnd
+    | exact PresB.of_keeps bk_lastCharSearch
+    | exact PresB.of_keeps bk_getLastCmd
+    | exact PresB.of_keeps bk_takeNumArgs
+    | exact PresB.of_keeps (bk_setInputMode _)
+    | exact PresB.of_keeps (bk_setLastCmd _)
+    | exact PresB.of_keeps bk_getLine
+    | exact PresB.of_keeps bk_getHistIdx
+    | exact PresB.of_keeps (bk_setHistIdx _)
+    | exact PresB.of_keeps bk_getPromptCol
+    | exact PresB.of_keeps (bk_redoCmd _ _)
+    | exact PresB.of_keeps bk_changesBegin
+    | exact PresB.of_keeps bk_changesEnd
+    | exact PresB.of_keeps bk_doingInsert
+    | exact PresB.of_keeps bk_doneInserting
+    | exact PresB.of_keeps (bk_truncateChanges _)
+    | exact PresB.of_keeps (bk_ringYankCount _)
+    | exact PresB.of_keeps bk_ringYank
+    | exact PresB.of_keeps bk_ringYankPop
+    | exact PresB.of_keeps (bk_ringKill _))
+  | exact bdp_updateHint
+  | exact bdp_highlightCharStep
+  | exact bdp_setRefreshLayout _ _
   | ((with_reducible apply PresB.of_keeps) <;> (with_reducible apply Keeps.modify) <;> (intro _; rfl))
+  | ((with_reducible apply PresB.modify) <;> (intro _; exact ⟨rfl, rfl, rfl⟩))
+  | ((with_reducible apply bdp_logRender) <;> (intro _ hw; first | exact hw | trivial))
   | exact PresB.of_keeps (Keeps.read _)
   | split
   | dsimp only)
@@ -114,10 +242,10 @@ variable {S : Segmenter} {U : UData} {cfg : EdCfg}
 
 /-- a state that differs from a `BdI` state by one logged operation carrying its line -/
 theorem bdi_log {s s' : Ed} {op : RenderOp} (h : BdI s) (hr : s'.render = op :: s.render)
-    (hl : s'.line = s.line) (hop : OpBd op) : BdI s' := by
+    (hl : s'.line = s.line) (hs : s'.saved = s.saved) (hop : OpBd op) : BdI s' := by
   unfold BdI at *
-  rw [hr, hl]
-  exact ⟨h.1, logBd_cons hop h.2⟩
+  rw [hr, hl, hs]
+  exact ⟨h.1, h.2.1, logBd_cons hop h.2.2⟩
 
 theorem bdp_refreshLine : PresB (refreshLine S U cfg) := by
   constructor
@@ -130,8 +258,8 @@ theorem bdp_refreshLine : PresB (refreshLine S U cfg) := by
     obtain ⟨b, hc', e2⟩ := highlightCharStep_cases (cfg := cfg) { s with hint := h1, hintCalls := n1 }
     refine wp_of_eq_ok e2 ?_
     simp only [wp_bind, wp_setRefreshLayout, wp_logRender]
-    exact bdi_log h rfl rfl (show IsBoundary s.line.buf s.line.pos from h.1)
-  · unfold wp; rw [e1]; exact ⟨h.1, h.2⟩
+    exact bdi_log h rfl rfl rfl (show IsBoundary s.line.buf s.line.pos from h.1)
+  · unfold wp; rw [e1]; exact h
 
 theorem bdp_refreshLineWithMsg (msg : Option Text) : PresB (refreshLineWithMsg S U cfg msg) := by
   constructor
@@ -141,7 +269,7 @@ theorem bdp_refreshLineWithMsg (msg : Option Text) : PresB (refreshLineWithMsg S
   obtain ⟨b, hc', e2⟩ := highlightCharStep_cases (cfg := cfg) { s with hint := none }
   refine wp_of_eq_ok e2 ?_
   simp only [wp_bind, wp_setRefreshLayout, wp_logRender]
-  exact bdi_log h rfl rfl (show IsBoundary s.line.buf s.line.pos from h.1)
+  exact bdi_log h rfl rfl rfl (show IsBoundary s.line.buf s.line.pos from h.1)
 
 theorem bdp_refreshPromptAndLine (p : Text) : PresB (refreshPromptAndLine S U cfg p) := by
   constructor
@@ -154,8 +282,8 @@ theorem bdp_refreshPromptAndLine (p : Text) : PresB (refreshPromptAndLine S U cf
     obtain ⟨b, hc', e2⟩ := highlightCharStep_cases (cfg := cfg) { s with hint := h1, hintCalls := n1 }
     refine wp_of_eq_ok e2 ?_
     simp only [wp_bind, wp_setRefreshLayout, wp_logRender]
-    exact bdi_log h rfl rfl (show IsBoundary s.line.buf s.line.pos from h.1)
-  · unfold wp; rw [e1]; exact ⟨h.1, h.2⟩
+    exact bdi_log h rfl rfl rfl (show IsBoundary s.line.buf s.line.pos from h.1)
+  · unfold wp; rw [e1]; exact h
 
 theorem bdp_moveCursor : PresB (moveCursor S U cfg) := by
   constructor
@@ -164,17 +292,17 @@ theorem bdp_moveCursor : PresB (moveCursor S U cfg) := by
   simp only [wp_bind, wp_get]
   split
   · rw [wp_logRender]
-    exact bdi_log h rfl rfl (show IsBoundary s.line.buf s.line.pos from h.1)
+    exact bdi_log h rfl rfl rfl (show IsBoundary s.line.buf s.line.pos from h.1)
   · rw [wp_bind]
     obtain ⟨b, hc', e2⟩ := highlightCharStep_cases (cfg := cfg) s
     refine wp_of_eq_ok e2 ?_
     cases b with
     | true =>
       simp only [if_true, wp_bind, wp_setRefreshLayout, wp_logRender]
-      exact bdi_log h rfl rfl (show IsBoundary s.line.buf s.line.pos from h.1)
+      exact bdi_log h rfl rfl rfl (show IsBoundary s.line.buf s.line.pos from h.1)
     | false =>
       simp only [Bool.false_eq_true, if_false, wp_bind, wp_modify, wp_logRender]
-      exact bdi_log h rfl rfl (show IsBoundary s.line.buf s.line.pos from h.1)
+      exact bdi_log h rfl rfl rfl (show IsBoundary s.line.buf s.line.pos from h.1)
 
 theorem bdp_customBinding (keys : List KeyEvent) (n : Nat) (p : Bool) : PresB (customBinding cfg keys n p) := by
   constructor
@@ -190,7 +318,7 @@ theorem bdp_customBinding (keys : List KeyEvent) (n : Nat) (p : Bool) : PresB (c
                  keys, n, positive := p } :: s.obs,
         render := .sync s.line.buf s.line.pos s.hint :: s.render }) := by
       unfold customBinding; rw [hfind]
-    exact wp_of_eq_ok e (bdi_log h rfl rfl trivial)
+    exact wp_of_eq_ok e (bdi_log h rfl rfl rfl trivial)
 
 theorem bdp_emacsDigitLoop (negative : Bool) (fuel : Nat) (mag : Option Nat) :
     PresB (emacsDigitLoop S U cfg negative fuel mag) := by
